@@ -359,12 +359,22 @@ def wait_budget(ctx, pexpect, n):
         sched = T.gen_sched(rng, rng.randint(2, 14))
         sim = T.Sim(b'', True, True, sched)
         calls = [(rng.choice([1, 3, 100]), rng.random() < 0.3) for _ in range(rng.randint(1, 4))]
+        # the time each read may take: nothing, some, or no limit (None: it must then WAIT, whatever timeout the socket object
+        # itself carries - its own timeout is varied between the reads by the harness, non-blocking mode included)
+        tmos = [0 if t0 else rng.choice([5, 5, 0.5, None]) for _, t0 in calls]
         try:
-            obs, c = T.run_calls(pexpect, which, sim, calls, use_poll=use_poll)
+            obs, c = T.run_calls(pexpect, which, sim, calls, use_poll=use_poll, timeouts=tmos)
         except Exception:
             continue                # judged by C06
         tried += 1
-        for r, waits in c._verif_waits:
+        for r, waits, outcome in c._verif_waits:
+            if r is None:
+                if outcome in (2, 3) or any(w not in (None, 0) for w in waits):
+                    ctx.hit('C05/none-waits', '%s read_nonblocking(timeout=None) (use_poll=%s) %s; the waits it asked of the kernel were %r (each must be a plain poll or unlimited)'
+                            % (['pty', 'fd', 'socket'][which], use_poll, {2: 'raised TIMEOUT', 3: 'let a would-block error through'}.get(outcome, 'returned'), waits),
+                            {'transport': which, 'sched': repr(sched), 'calls': calls, 'timeouts': tmos, 'use_poll': use_poll})
+                    return
+                continue
             total = sum(w for w in waits if w)
             if any(w is None for w in waits) or total > r + 1e-9:
                 ctx.hit('C05/wait-budget', '%s read_nonblocking(timeout=%r) (use_poll=%s) asked the kernel to wait %r: more than its budget'
